@@ -919,6 +919,12 @@ s17_canceller(void *a)
 	nng_aio_cancel(S17.aio);
 	return NULL;
 }
+static void *
+s17_closer(void *a)
+{
+	nng_http_close(a);
+	return NULL;
+}
 static void
 run_s17(void *arg)
 {
@@ -964,7 +970,8 @@ run_s17(void *arg)
 	S17.t_start   = vs_now();
 	S17.submitted = 1;
 	int answer    = vs_choose(VK_ENV, 5); // silence / half head / head only / full / close
-	int cancel    = vs_choose(VK_ENV, 2);
+	int cancel    = vs_choose(VK_ENV, 3); // nobody / nng_aio_cancel / nng_http_close of the connection
+	int closed    = 0;
 	nng_http_transact(conn, S17.aio);
 	vs_settle();
 	char   req[1024];
@@ -972,8 +979,13 @@ run_s17(void *arg)
 	static const char full[] = "HTTP/1.1 200 OK\r\nContent-Length: 5\r\n\r\nhello";
 	pthread_t          tc;
 	vs_window(1);
-	if (cancel)
+	if (cancel == 1)
 		pthread_create(&tc, NULL, s17_canceller, NULL);
+	else if (cancel == 2) {
+		// the underlying object goes away while the transaction is in progress
+		pthread_create(&tc, NULL, s17_closer, conn);
+		closed = 1;
+	}
 	switch (answer) {
 	case 1:
 		vp_write_all(fd, full, 20);
@@ -1002,9 +1014,9 @@ run_s17(void *arg)
 		    "http transaction (answer %d, cancel %d): %d callbacks 60 ms after a 30 ms timeout",
 		    answer, cancel, S17.ncb);
 	static const int ok[] = { 0, NNG_ECANCELED, NNG_ETIMEDOUT, NNG_ECONNSHUT, NNG_ECLOSED,
-		NNG_ECONNRESET, NNG_EPROTO };
-	allowed(&S17, "http transact", ok, 7);
-	if (S17.result == 0) {
+		NNG_ECONNRESET, NNG_EPROTO, NNG_ESTOPPED };
+	allowed(&S17, "http transact", ok, 8);
+	if (S17.result == 0 && !closed) {
 		void  *body;
 		size_t bl;
 		nng_http_get_body(conn, &body, &bl);
@@ -1016,7 +1028,8 @@ run_s17(void *arg)
 			    answer, (int) nng_http_get_status(conn), bl);
 	}
 	vs_outcome("answer=%d cancel=%d res=%d", answer, cancel, S17.result);
-	nng_http_close(conn);
+	if (!closed)
+		nng_http_close(conn);
 	nng_aio_free(S17.aio);
 	nng_aio_free(ca);
 	nng_http_client_free(cli);
